@@ -35,13 +35,14 @@ def coarser_ok(wc):
     return {0: [0, 0, 0, 1, 2, 3, 4], 4: [0, 0, 1, 2, 3, 4], 1: [1, 1, 2, 3], 2: [2, 3], 3: [3]}[wc]
 
 
-def gen_wf_program(rng, ntasks, exact_only=False, allow_fail=False, coarse_writers=False):
+def gen_wf_program(rng, ntasks, exact_only=False, allow_fail=False, coarse_writers=False, norepeat=False):
     """Well-formed by construction (class W1-W6):
     requires only go from lower to higher task ids; each generated resource has one generator which writes it at most
     once per execution and never reads it; a reader requires the generator (same path, before the read);
     one checker per target per execution; writer checker at least as fine as the readers' views."""
     p = Prog()
     p.exact_only = exact_only
+    p.norepeat = norepeat
     ns = rng.randint(2, 4)
     p.sources = list(range(ns))
     ng = rng.randint(1, 3)
@@ -109,8 +110,11 @@ def gen_body(rng, p, t, ntasks, exact_only, allow_fail, depth, used, wrote, budg
     budget[0] -= 1
     r = rng.random()
     mine = [g for g, (gt, wc) in p.generated.items() if gt == t and g not in wrote]
+    norep = getattr(p, 'norepeat', False)
     if r < 0.30:
         s = rng.choice(p.sources)
+        if norep and ('r%d' % s) in used:
+            return gen_body(rng, p, t, ntasks, exact_only, allow_fail, depth, used, wrote, budget)
         c = used.get('r%d' % s)
         if c is None:
             c = pick_rc(rng, exact_only, allow_fail)
@@ -118,6 +122,8 @@ def gen_body(rng, p, t, ntasks, exact_only, allow_fail, depth, used, wrote, budg
         return ('R', s, c, gen_body(rng, p, t, ntasks, exact_only, allow_fail, depth, u, wrote, budget))
     if r < 0.52 and t < ntasks - 1:
         q = rng.randint(t + 1, ntasks - 1)
+        if norep and ('t%d' % q) in used:
+            return gen_body(rng, p, t, ntasks, exact_only, allow_fail, depth, used, wrote, budget)
         c = used.get('t%d' % q)
         if c is None:
             c = pick_oc(rng, exact_only)
@@ -129,6 +135,8 @@ def gen_body(rng, p, t, ntasks, exact_only, allow_fail, depth, used, wrote, budg
         if cands:
             g = rng.choice(cands)
             gt, wc = p.generated[g]
+            if norep and (('r%d' % g) in used or ('t%d' % gt) in used):
+                return gen_body(rng, p, t, ntasks, exact_only, allow_fail, depth, used, wrote, budget)
             rc = used.get('r%d' % g)
             if rc is None:
                 rc = rng.choice(coarser_ok(wc)) if not exact_only else 0
@@ -611,3 +619,36 @@ def gen_sibling_program(rng):
     if rng.random() < 0.5:
         steps += [['E', str(rng.choice(p.sources)), str(rng.randint(4, 6))], ['S', '2', 'q', '0', 'q', str(x)]]
     return p, steps
+
+
+def in_proved_class(p):
+    """Is the program inside the class of the Rocq theorems C01_incremental_equals_scratch / C08_exact_record (WFP: no target
+    twice on a path, a generated resource read only after a DIRECT require of its generator, writes only to own products
+    through exact checkers, no stamping errors) and, in addition, inside the static class of C20_static_class_never_aborts /
+    C01_total (requires go to higher task ids -- true by construction of the generators -- and no panic)?
+    Returns (wfp, static)."""
+    gen = {g: gt for g, (gt, wc) in p.generated.items()}
+    state = {'panic': False, 'ok': True}
+    def walk(t, c, seen, req):
+        k = c[0]
+        if k in ('D', 'T'): return
+        if k == 'P': state['panic'] = True; return
+        if k == 'I':
+            walk(t, c[2], seen, req); walk(t, c[3], seen, req); return
+        if k == 'Q':
+            tgt = 't%d' % c[1]
+            if tgt in seen or c[1] <= t: state['ok'] = False
+            walk(t, c[3], seen | {tgt}, req | {c[1]}); return
+        if k == 'R':
+            tgt = 'r%d' % c[1]
+            if tgt in seen or c[2] == 5: state['ok'] = False
+            if c[1] in gen and (gen[c[1]] not in req or gen[c[1]] == t): state['ok'] = False
+            walk(t, c[3], seen | {tgt}, req); return
+        if k in ('W', 'N', 'X'):
+            tgt = 'r%d' % c[1]
+            if tgt in seen or gen.get(c[1]) != t or c[2] not in (0, 4): state['ok'] = False
+            walk(t, c[4] if k != 'X' else c[3], seen | {tgt}, req); return
+        state['ok'] = False
+    for t, c in p.tasks.items():
+        walk(t, c, frozenset(), frozenset())
+    return state['ok'], state['ok'] and not state['panic']
